@@ -84,7 +84,8 @@ impl Interp {
                     let h = self.metamethod(other, Mm::NewIndex);
                     if h.is_nil() {
                         let msg = format!("attempt to index a {} value", other.type_name());
-                        return Err(self.rt_error(ErrClass::Index, line, &msg));
+                        self.cur_line = line;
+                        return Err(self.rt_error(ErrClass::Index, self.cur_line, &msg));
                     }
                     h
                 }
